@@ -5,6 +5,7 @@ import GivaroModel.Model.Primes
 import GivaroModel.Model.PrimesPower
 import GivaroModel.Model.PrimesFactor
 import GivaroModel.Model.PrimesMisc
+import GivaroModel.Model.PrimesContainers
 import GivaroModel.Spec.PrimesSpec
 -- @driver-mode primes Driver.Primes.primesLine
 namespace Driver.Primes
@@ -201,6 +202,67 @@ def primesLine (line : String) : String :=
         let cof := ps.foldl (fun m p => if p < 2 then m else stripAll p (Nat.log2 m + 1) m) n.natAbs
         let sorted := (ps.zip (ps.drop 1)).all (fun ab => decide (ab.1 < ab.2))
         primesVerdict line (ps.all primeN && sorted && ps.all (fun p => n.natAbs % p == 0) && cof == 1) true "-"
+      | "divinto", [n, _m], k :: rest =>
+        -- divisors(L, Lf, Le), divisors(L, n) and divisors(Lf, Lf, Le) on an output list that already holds the divisors of m and junk:
+        -- the list left behind is that of the input alone (`divisorsInto old fs = divisors fs`)
+        let fs := pairs (rest.take (2 * k.toNat))
+        let takeList (xs : List Int) : Option (List Nat × List Int) :=
+          match xs with
+          | c :: ys => if ys.length < c.toNat then none else some ((ys.take c.toNat).map Int.toNat, ys.drop c.toNat)
+          | [] => none
+        match takeList (rest.drop (2 * k.toNat)) with
+        | some (d1, r1) =>
+          match takeList r1 with
+          | some (d2, r2) =>
+            if !r2.isEmpty then "BAD divinto | " ++ line else
+            let m := divisorsInto (0 :: d1) fs
+            let specOk := if n == 0 then d1 == [1] && d2 == [1] else chkDivisors n fs d1 && chkDivisors n fs d2
+            primesVerdict line specOk (m == d1) (String.intercalate " " (m.map hexNat))
+          | none => "BAD divinto | " ++ line
+        | none => "BAD divinto | " ++ line
+      | "divalias", [n], k :: rest =>
+        let fs := pairs (rest.take (2 * k.toNat))
+        match rest.drop (2 * k.toNat) with
+        | c :: ds =>
+          let d := ds.map Int.toNat
+          if d.length != c.toNat then "BAD divalias | " ++ line else
+          let m := divisorsInto (fs.map (·.1)) fs
+          primesVerdict line (if n == 0 then d == [1] else chkDivisors n fs d) (m == d) (String.intercalate " " (m.map hexNat))
+        | [] => "BAD divalias | " ++ line
+      | "setinto", [n, _m], c :: p0 :: rest =>
+        -- set(Lf, Lo, n) on containers that already hold the factorisation of m and junk: push_back, the old pairs stay in front
+        let pre := pairs (rest.take (2 * p0.toNat))
+        match rest.drop (2 * p0.toNat) with
+        | kf :: ko :: rest2 =>
+          let fin := pairs rest2
+          if pre.length != p0.toNat || fin.length != kf.toNat || rest2.length != 2 * kf.toNat then "BAD setinto | " ++ line else
+          let newp := fin.drop pre.length
+          let specOk := kf == ko && fin.take pre.length == pre &&
+            (if n == 0 then newp.isEmpty else chkFactorisation n newp && c == 1)
+          let m := setInto (replayPf newp) pre n
+          primesVerdict line specOk (m == some (fin, c != 0)) (match m with | some (l, b) => s!"{b} {showPairs l}" | none => "fuel")
+        | _ => "BAD setinto | " ++ line
+      | key2, [n, _m], p0 :: rest =>
+        if key2 != "set1into" && key2 != "eratinto" && key2 != "writeinto" then "BAD key/arity | " ++ line else
+        -- set(Lf, n) / Erathostene(Lf, n) / write(o, Lf, n) on a container that already holds the primes of m and junk
+        let pre := (rest.take p0.toNat).map Int.toNat
+        match rest.drop p0.toNat with
+        | kf :: rest2 =>
+          let fin := rest2.map Int.toNat
+          if pre.length != p0.toNat || fin.length != kf.toNat || !(rest2.all (fun x => decide (0 ≤ x))) then "BAD into | " ++ line else
+          let newp := fin.drop pre.length
+          let cof := newp.foldl (fun x q => if q < 2 then x else stripAll q (Nat.log2 x + 1) x) n.natAbs
+          let primesOk := newp.all primeN && distinct newp && newp.all (fun q => n.natAbs % q == 0) && cof == 1
+          let sorted := (newp.zip (newp.drop 1)).all (fun ab => decide (ab.1 < ab.2))
+          let specNew :=
+            if key2 == "writeinto" && n.natAbs ≤ 1 then newp == [n.natAbs]        -- write pushes 0 / 1 itself
+            else if n == 0 then newp.isEmpty
+            else primesOk && (key2 != "eratinto" || sorted)
+          let specOk := fin.take pre.length == pre && specNew
+          if key2 == "eratinto" || n.natAbs ≤ 1 then primesVerdict line specOk true "-" else
+          let m := set1Into (fun x => match newp.find? (fun q => decide (2 ≤ q) && x % q == 0) with | some q => q | none => x) pre n
+          primesVerdict line specOk (m == some fin) (match m with | some l => String.intercalate " " (l.map hexNat) | none => "fuel")
+        | _ => "BAD into | " ++ line
       | "divisors", [n], k :: rest =>
         let fl := rest.take (2 * k.toNat)
         let fs := pairs fl
